@@ -389,6 +389,12 @@ fn main() {
             std::panic::set_hook(Box::new(|_| {}));
             println!("{}", rt.block_on(fsprobe::run(&args[2])));
         }
+        "fslocate" => {
+            // args: <scratch directory> <file.json = [key, ...]>
+            std::panic::set_hook(Box::new(|_| {}));
+            let keys: Vec<String> = serde_json::from_str(&std::fs::read_to_string(&args[3]).expect("read")).expect("json");
+            println!("{}", rt.block_on(fsprobe::locate(&args[2], &keys)));
+        }
         "policy" => {
             // args: <file.json> = [{"type":..,"desc":..} | {"type":..,"text":..}, ..]
             let text = std::fs::read_to_string(&args[2]).expect("read");
